@@ -375,6 +375,39 @@ class FullCheck(BaseCheck):
       env.advance(0.1)
       w.ss.leave(*keep)
       env.advance(1.0)
+    if kind == 'thrift' and scripted and pool is None and len(w.ss.truth) >= 2 and idx % 5 == 2:
+      # a member with two calls in flight on two pooled connections loses one of them (reset): that call fails,
+      # the member's pool closes, later dispatches find the member down and mark it (the other call still counts
+      # as its load); the member then leaves the server set, reconnecting is slow, and the surviving call, which
+      # nobody answers, is ended by its own timeout
+      classes.add('down-member-with-call-in-flight-leaves')
+      for s_ in w.servers:
+        s_.sim.mode = 'up'
+      env.advance(1.0)
+      n0_ = dict((s_.ep, len(s_.requests)) for s_ in w.servers)
+      Tl = rng.choice([1.5, 3.0])
+      for _k in range(len(w.ss.truth) + 1):
+        cid = len(w.calls)
+        forced[cid] = 30.0
+        w.call('echo', ('c%d-%d' % (cid, rng.getrandbits(20)),), timeout=Tl)
+      env.advance(0.05)
+      busy_ = [s_ for s_ in w.servers if len(set(q_['conn'] for q_ in s_.requests[n0_[s_.ep]:])) >= 2
+               and (s_.sim.host, s_.sim.port) in w.ss.truth]
+      if busy_:
+        sx_ = rng.choice(busy_)
+        conns_ = sorted(set(q_['conn'] for q_ in sx_.requests[n0_[sx_.ep]:]))
+        victim_ = next((c_ for c_ in sx_.sim.conns if c_.id == conns_[0] and not c_.client_closed), None)
+        if victim_ is not None:
+          victim_.close_by_server('rst')
+          env.advance(0.02)
+          for _k in range(3 * len(w.ss.truth)):
+            cid = len(w.calls)
+            forced[cid] = 0.001
+            w.call('echo', ('c%d-%d' % (cid, rng.getrandbits(20)),), timeout=1.0)
+          env.advance(0.05)
+          sx_.sim.connect_latency = 4.0
+          w.ss.leave(sx_.sim.host, sx_.sim.port)
+          env.advance(Tl + 1.0)
     if kind == 'mux' and idx % 7 == 6 and (not scripted or w.ss.truth):
       # slow calls that are outstanding across the transport's keep-alive pings (one every 30-40 s), with
       # further calls issued after a ping was answered and before the slow replies arrive
